@@ -4,7 +4,8 @@
 //! case: {label, mode: "new"|"empty", tab: [{id, dur, flags, freq, rmin, rmax, blend, vnext, alias}], gd: [u32], ops: [{op, a, b}]}
 //!   op: update(a = dt ms) | setid(a) | setidx(a) | split(a, b): update(a); update(b) on the manager, update(a + b) on a clone
 //! trace: Reset {mode, tab, gd, obs}  then one Call {op, a, b, res, obs, obs2} per call; res = ok | hang | panic
-//!   obs: public accessors (idx, time, bl = blend_factor * 1e6 rounded, gt, tx = bone 0 translation x * 1000 rounded)
+//!   obs: public accessors (idx, time, bl = blend_factor * 1e6 rounded, gt, tx / gx / sx = translation x * 1000 rounded of bone 0 (linear track), bone 1 (linear
+//!        track driven by global sequence 0), bone 2 (step track))
 //!        + the fields of the derived Debug rendering (hid = true when it could be read: repeat counters, next state)
 //! Every case runs in a forked child; the parent declares "hang" when the child burns > 1.5 s of CPU inside one call.
 use serde_json::{json, Value};
@@ -53,6 +54,8 @@ fn state_of(dbg: &str, name: &str) -> Option<(i64, i64, i64, i64)> {
 fn obs(m: &AnimationManager) -> Value {
     let bl = m.blend_factor();
     let tx = m.get_bone_translation(0).x;
+    let gx = m.get_bone_translation(1).x;
+    let sx = m.get_bone_translation(2).x;
     let dbg = format!("{:?}", m);
     let tail = dbg.rfind("current_animation: AnimationState").map(|p| &dbg[p..]).unwrap_or("");
     let (hid, c, n) = match (state_of(tail, "current_animation"), state_of(tail, "next_animation")) {
@@ -65,13 +68,15 @@ fn obs(m: &AnimationManager) -> Value {
         "bl": if bl.is_nan() { NAN } else { (bl as f64 * 1.0e6).round() as i64 },
         "gt": m.global_times().iter().map(|t| ti(*t)).collect::<Vec<_>>(),
         "tx": if tx.is_nan() { NAN } else { (tx as f64 * 1000.0).round() as i64 },
+        "gx": if gx.is_nan() { NAN } else { (gx as f64 * 1000.0).round() as i64 },
+        "sx": if sx.is_nan() { NAN } else { (sx as f64 * 1000.0).round() as i64 },
         "nseq": m.sequence_count(),
         "hid": hid, "crep": c.1, "cmain": c.3, "nidx": n.0, "nrep": n.1, "ntime": n.2, "nmain": n.3,
     })
 }
 
 fn no_obs() -> Value {
-    json!({"idx": -9, "time": -9, "bl": -9, "gt": [], "tx": -9, "nseq": 0, "hid": false, "crep": 0, "cmain": 0, "nidx": -9, "nrep": 0, "ntime": 0, "nmain": 0})
+    json!({"idx": -9, "time": -9, "bl": -9, "gt": [], "tx": -9, "gx": -9, "sx": -9, "nseq": 0, "hid": false, "crep": 0, "cmain": 0, "nidx": -9, "nrep": 0, "ntime": 0, "nmain": 0})
 }
 
 fn build(case: &Value) -> AnimationManager {
@@ -95,13 +100,14 @@ fn build(case: &Value) -> AnimationManager {
         })
         .collect();
     let n = seqs.len();
-    let bone = ResolvedBone {
-        bone_id: 0,
+    // bone 0: linear track on the animation time; bone 1: linear track on global sequence 0; bone 2: step track
+    let bone = |id: i32, interpolation_type: u16, global_sequence: i16| ResolvedBone {
+        bone_id: id,
         flags: 0,
         parent_bone: -1,
         translation: ResolvedTrack {
-            interpolation_type: 1,
-            global_sequence: -1,
+            interpolation_type,
+            global_sequence,
             timestamps: vec![KEY_T.to_vec(); n],
             values: vec![KEY_V.iter().map(|v| Vec3::new(*v, 0.0, 0.0)).collect(); n],
         },
@@ -110,7 +116,7 @@ fn build(case: &Value) -> AnimationManager {
         pivot: Vec3::ZERO,
     };
     let gd: Vec<u32> = ga(case, "gd").iter().map(|v| v.as_u64().unwrap() as u32).collect();
-    AnimationManager::new(gd, seqs, vec![bone])
+    AnimationManager::new(gd, seqs, vec![bone(0, 1, -1), bone(1, 1, 0), bone(2, 0, -1)])
 }
 
 /// child side: run the case, one line per event on `out`; "B" before every call
